@@ -712,6 +712,25 @@ def gen_fault(tp, m: Model, ids):
         which = tp.pick(["set_atom_change", "set_bond_change"])
         return [which, {r: None for r in ROLES if tp.chance(128)}, tag]
     if kind == "change-two-centres":
+        if tp.chance(70):
+            # two descriptors over the SAME atoms (unspecified parity makes
+            # them compare equal) centred on different atoms / bonds
+            par = tp.pick([None, None, 1])
+            r1, r2 = tp.shuffle(list(ROLES))[:2]
+            if bonds and len(atoms) >= 3 and tp.chance(128):
+                x, y = tp.shuffle(sorted(tp.pick(bonds)))
+                z = tp.pick([q for q in atoms if q not in (x, y)])
+                par = None if par is None else 0
+                return ["set_bond_change",
+                        {r1: ["PlanarBond", [z, None, x, y, None, None], par],
+                         r2: ["PlanarBond", [x, None, z, y, None, None], par]},
+                        tag]
+            x, y = tp.shuffle(atoms)[:2]
+            ligs = ([q for q in tp.shuffle(atoms) if q not in (x, y)]
+                    + [None] * 3)[:3]
+            return ["set_atom_change",
+                    {r1: ["Tetrahedral", [x, y] + ligs, par],
+                     r2: ["Tetrahedral", [y, x] + ligs, par]}, tag]
         if len(bonds) >= 2 and tp.chance(128):
             b1, b2 = tp.shuffle(bonds)[:2]
             if tp.chance(128):
@@ -810,10 +829,13 @@ def enumerate_faults(m: Model):
                 out.append(["set_bond_attr", x, y, "reaction", "formed",
                             "#role-type"])
             if m.cls == "SCRG":
-                out.append(["set_atom_change", {
-                    "broken": ["Tetrahedral", [x, y, None, None, None], 1],
-                    "formed": ["Tetrahedral", [y, x, None, None, None], 1]},
-                    "#change-two-centres"])
+                for par in (1, None):
+                    out.append(["set_atom_change", {
+                        "broken": ["Tetrahedral", [x, y, None, None, None],
+                                   par],
+                        "formed": ["Tetrahedral", [y, x, None, None, None],
+                                   par]},
+                        "#change-two-centres"])
                 for odd in ROLES:
                     out.append(["set_atom_change", {
                         r: ["Tetrahedral", [y if r == odd else x,
@@ -824,6 +846,16 @@ def enumerate_faults(m: Model):
         out.append(["set_atom_change", {}, "#change-empty"])
         out.append(["set_bond_change", {"formed": None}, "#change-empty"])
         bl = sorted(m.bonds, key=sorted)
+        for b in bl:
+            x, y = sorted(b)
+            for z in m.atoms:
+                if z not in b:
+                    out.append(["set_bond_change", {
+                        "broken": ["PlanarBond", [z, None, x, y, None, None],
+                                   None],
+                        "formed": ["PlanarBond", [x, None, z, y, None, None],
+                                   None]}, "#change-two-centres"])
+                    break
         if len(bl) >= 2:
             out.append(["set_bond_change", {
                 "broken": ["PlanarBond", [None, None, *sorted(bl[0]), None,
